@@ -179,6 +179,21 @@ theorem eval_lt_ints {s : Store} {w : World} {sp : Span} {t1 t2 : TId} {l1 l2 : 
     List.map_nil, Num.ofVal?, retV, C11.lt_int]
   exact .ret _ _ _ _
 
+/-- ㄴㅁ on two delayed integers, the second non-zero: both are demanded in order; the result is the truncated remainder -/
+theorem eval_rem_ints {s : Store} {w : World} {sp : Span} {t1 t2 : TId} {l1 l2 : Option Int} {x y : Int}
+    {h1 h2 : Nat} {s1 s2 : Store} (f1 : Forces s w t1 (.int x) h1 s1) (f2 : Forces s1 w t2 (.int y) h2 s2)
+    (hy : y ≠ 0) (h : Nat) (hh1 : h1 ≤ h) (hh2 : h2 ≤ h) :
+    Eval s w (.comp ((bRemainder sp [.thunk t1 l1, .thunk t2 l2]).bind (fun a => .ret (Res.arg a)))) h
+      (.ok (.arg (.strict (.int (Int.tmod x y))))) s2 w := by
+  simp only [bRemainder, matchArguments, checkArity, forceArg, forceAll, List.length_cons, List.length_nil, List.contains_cons,
+    List.contains_nil, Bind.bind, Comp.bind, pure]
+  refine f1 h hh1 _ _ _ _ _ ?_
+  simp only [Comp.bind]
+  refine f2 h hh2 _ _ _ _ _ ?_
+  simp only [Comp.bind, checkType, Val.isReal, List.all_cons, List.all_nil, Bool.and_true, Bool.and_self, if_true, hy, if_false,
+    retV, C11.intRem_eq_tmod x y hy]
+  exact .ret _ _ _ _
+
 /-- ㅈㄷ on a delayed list: the list is demanded — not its elements — and its number of elements returned -/
 theorem eval_len_list {s : Store} {w : World} {sp : Span} {t1 : TId} {l1 : Option Int} {xs : List Arg}
     {h1 : Nat} {s1 : Store} (f1 : Forces s w t1 (.list xs) h1 s1) (h : Nat) (hh1 : h1 ≤ h) :
